@@ -4,7 +4,7 @@ import re
 from vlib import core
 
 META = {
-    "disabled": True,
+    "disabled": False,
     "level": "model_checking",
     "level_text": "PathContain.tla models `warcraft-rs mpq extract` from entry name to written path (mpq_path_to_system, Rust's Path::file_name/parent/join, "
                   "create_dir_all and fs::write as a kernel component-stack machine). TLC (A) checks exhaustively on every name of <= 4 components over "
@@ -86,7 +86,7 @@ def run(ctx, cases_override=None):
                     distinct.add(("".join(n["c"]), "".join(n["s"]), r["preserve"], r["chain"], r["explicit"]))
             if len(samples) < 3 and (esc or len(samples) < 1) and len(r["names"]) <= 3:
                 samples.append({k: r[k] for k in ("case", "preserve", "chain", "explicit", "names", "exit", "created", "modified", "out")})
-    if runs == 0 or ok_runs == 0 or files == 0:
+    if not cases_override and (runs == 0 or ok_runs == 0 or files == 0):
         raise core.ToolError(f"stage C: vacuous replay (runs={runs}, exit-0 runs={ok_runs}, files created={files})")
     if not cases_override and ncases > runs:
         raise core.ToolError(f"stage C: {ncases} cases but only {runs} process runs recorded")
